@@ -36,8 +36,10 @@ ASSUMPTIONS = [
 ]
 
 
-def gen_yield(rng):
+def gen_yield(rng, scale=False):
     k = rng.random()
+    if scale and k < 0.7:
+        return rng.randint(8, 96) / 8.0      # most coroutines asleep
     if k < 0.25:
         return None
     if k < 0.33:
@@ -51,8 +53,8 @@ def gen_yield(rng):
 
 def gen_one(rng, tier, scale=False):
     big = tier == 'thorough' and rng.random() < 0.5
-    nframes = rng.randint(3, 60 if big else 30) if not scale else 250
-    nc = rng.randint(1, 8 if big else 6) if not scale else 120
+    nframes = rng.randint(3, 60 if big else 30) if not scale else 120
+    nc = rng.randint(1, 8 if big else 6) if not scale else 280
     style = rng.random()
     if style < 0.12:
         # near misses: the accumulated dt falls short of / passes a deadline
@@ -70,8 +72,8 @@ def gen_one(rng, tier, scale=False):
     for c in range(nc):
         script = []
         for _ in range(rng.randint(0, 8) if not scale
-                       else rng.randint(5, 40)):
-            y = gen_yield(rng)
+                       else rng.randint(3, 12)):
+            y = gen_yield(rng, scale)
             if rng.random() < 0.05 and nc > 1:
                 script.append({'spawn': rng.randrange(nc), 'y': y})
             else:
@@ -88,7 +90,7 @@ def gen_cases(tier, seed):
     for i in range(2 if tier == 'quick' else 32):
         yield gen_one(random.Random(f'C08/scale/{seed}/{tier}/{i}'), tier,
                       scale=True)
-    n = 3000 if tier == 'quick' else 16 * 20000
+    n = 8000 if tier == 'quick' else 16 * 20000
     for i in range(n):
         yield gen_one(random.Random(f'C08/{seed}/{tier}/{i}'), tier)
 
